@@ -63,6 +63,21 @@ type Scenario struct {
 	Lens      []int         `json:"lens,omitempty"` // pad sweep
 	Pads      []int         `json:"pads,omitempty"`
 	Discarded string        `json:"discarded,omitempty"`
+	Partial   bool          `json:"partial,omitempty"` // the last recorded step did not settle: judged by the property only
+	Crash     string        `json:"crash,omitempty"`
+}
+
+// poisoned: this process must not run another scenario (a step did not settle or the device did not close)
+var poisoned bool
+
+func closeWorld(w *cosim.World) {
+	done := make(chan struct{})
+	go func() { w.Close(); close(done) }()
+	select {
+	case <-done:
+	case <-time.After(3 * time.Second):
+		poisoned = true
+	}
 }
 
 func epAddr(id int) netip.AddrPort {
@@ -85,9 +100,10 @@ type hstate struct {
 	peers    []*cosim.RefPeer
 	sessions []*ref.Session // by serial-1
 	owner    []int
-	lastInit [][]byte        // device's unanswered initiation per peer
-	cur      []*ref.Session  // latest session per peer
+	lastInit [][]byte       // device's unanswered initiation per peer
+	cur      []*ref.Session // latest session per peer
 	expired  []bool
+	down     bool
 	routable [][]byte // packets sent so far (for duplicates)
 }
 
@@ -136,6 +152,7 @@ func (h *hstate) describe(sent []sim.Sent) []Obs {
 // run executes events drawn from src (nil = end) and records them in sc.Evs.
 func run(sc *Scenario, src func(i int, h *hstate) *Ev) {
 	sc.Discarded = ""
+	sc.Partial = false
 	sc.Evs = nil
 	peers := make([]*cosim.RefPeer, sc.NPeers)
 	for i := range peers {
@@ -156,7 +173,7 @@ func run(sc *Scenario, src func(i int, h *hstate) *Ev) {
 		sc.Discarded = "world: " + err.Error()
 		return
 	}
-	defer w.Close()
+	defer closeWorld(w)
 	start := time.Now()
 	h := &hstate{sc: sc, w: w, peers: peers, lastInit: make([][]byte, sc.NPeers), cur: make([]*ref.Session, sc.NPeers), expired: make([]bool, sc.NPeers)}
 	for i := 0; ; i++ {
@@ -172,7 +189,22 @@ func run(sc *Scenario, src func(i int, h *hstate) *Ev) {
 			sent = append(sent, o.Sent...)
 			settled = settled && o.Settled
 		}
+		if h.down && (ev.Kind == "refhs" || ev.Kind == "anshs" || ev.Kind == "roam") {
+			continue // the bind is closed: nothing can arrive
+		}
 		switch ev.Kind {
+		case "down":
+			w.Dev.Down()
+			take(w.Take())
+			h.down = true
+			for p := range h.cur {
+				h.cur[p] = nil
+				h.lastInit[p] = nil
+			}
+		case "up":
+			w.Dev.Up()
+			take(w.Take())
+			h.down = false
 		case "tun":
 			take(w.TunIn(ev.Pkts...))
 			h.routable = append(h.routable, ev.Pkts...)
@@ -225,7 +257,11 @@ func run(sc *Scenario, src func(i int, h *hstate) *Ev) {
 			h.expired[ev.Peer] = true
 		}
 		if !settled {
-			sc.Discarded = fmt.Sprintf("event %d did not settle", i)
+			// keep what was emitted: the property can still be judged on it (never the model)
+			poisoned = true
+			sc.Partial = true
+			ev.Obs = h.describe(sent)
+			sc.Evs = append(sc.Evs, ev)
 			return
 		}
 		// the device's own timers (handshake retransmission after RekeyTimeout = 5 s, ...) are outside
@@ -257,6 +293,7 @@ type gen struct {
 	bnd6   [][]byte
 	serial int
 	n      int
+	downs  int
 	big    bool
 	mtu    int
 }
@@ -369,7 +406,21 @@ func (g *gen) next(i int, h *hstate) *Ev {
 		return nil
 	}
 	p := r.Intn(sc.NPeers)
-	switch x := r.Intn(100); {
+	x := r.Intn(100)
+	if h.down { // interface down: TUN traffic keeps coming, nothing else can happen until Up
+		switch {
+		case x < 60:
+			x = 0
+		case x < 92:
+			return &Ev{Kind: "up"}
+		default:
+			x = 65
+		}
+	} else if g.downs > 0 && r.Intn(12) == 0 {
+		g.downs--
+		return &Ev{Kind: "down"}
+	}
+	switch {
 	case x < 62:
 		k := 1 + r.Intn(sc.TunBatch)
 		if k > 6 && r.Intn(3) != 0 {
@@ -423,6 +474,10 @@ func genScenario(r *rand.Rand, big bool) (*Scenario, *gen) {
 		sc.Eps = append(sc.Eps, ep)
 	}
 	g := &gen{r: r, sc: sc, big: big, mtu: sc.MTU, n: 6 + r.Intn(16)}
+	if r.Intn(4) == 0 {
+		g.downs = 1 + r.Intn(2)
+		g.n += 6
+	}
 	g.bnd4 = dpath.Boundary(r, sc.Table, 4)
 	g.bnd6 = dpath.Boundary(r, sc.Table, 6)
 	return sc, g
@@ -497,6 +552,53 @@ func directed() []*Scenario {
 		sc3.Evs = append(sc3.Evs, ev)
 	}
 	out = append(out, sc3)
+	// TUN traffic while the interface is down is dropped and nothing of it survives Up:
+	// sessions are gone, traffic for another peer afterwards goes to that peer only
+	sc4 := &Scenario{Kind: "scenario", Gen: "directed-down-up", NPeers: 2, Table: tbl, MTU: 1420, TunBatch: 4, Eps: []int{1, 2}}
+	sc4.Evs = []Ev{{Kind: "refhs", Peer: 0, Ep: 1}, {Kind: "refhs", Peer: 1, Ep: 2},
+		{Kind: "tun", Pkts: [][]byte{v4to([4]byte{10, 1, 9, 1}, 60, 1), v4to([4]byte{10, 1, 2, 1}, 61, 2)}},
+		{Kind: "down"},
+		{Kind: "tun", Pkts: [][]byte{v4to([4]byte{10, 1, 9, 2}, 62, 3)}},
+		{Kind: "tun", Pkts: [][]byte{v4to([4]byte{10, 1, 9, 3}, 63, 4), v4to([4]byte{10, 1, 9, 4}, 64, 5)}},
+		{Kind: "up"},
+		{Kind: "tun", Pkts: [][]byte{v4to([4]byte{10, 1, 2, 2}, 65, 6)}},
+		{Kind: "anshs", Peer: 1, Ep: 2}, {Kind: "anshs", Peer: 0, Ep: 1},
+		{Kind: "tun", Pkts: [][]byte{v4to([4]byte{10, 1, 2, 3}, 66, 7), v4to([4]byte{10, 1, 9, 5}, 67, 8)}},
+		{Kind: "anshs", Peer: 0, Ep: 1}, {Kind: "anshs", Peer: 1, Ep: 2},
+		{Kind: "tun", Pkts: [][]byte{v4to([4]byte{10, 1, 2, 4}, 68, 9), v4to([4]byte{10, 1, 9, 6}, 69, 10), v4to([4]byte{10, 1, 2, 5}, 70, 11)}},
+		{Kind: "down"}, {Kind: "tun", Pkts: [][]byte{v4to([4]byte{10, 1, 2, 6}, 71, 12)}}, {Kind: "up"},
+		{Kind: "tun", Pkts: [][]byte{v4to([4]byte{10, 1, 9, 7}, 72, 13)}},
+		{Kind: "anshs", Peer: 0, Ep: 1}, {Kind: "anshs", Peer: 1, Ep: 2},
+		{Kind: "tun", Pkts: [][]byte{v4to([4]byte{10, 1, 2, 7}, 73, 14), v4to([4]byte{10, 1, 9, 8}, 74, 15)}},
+		{Kind: "anshs", Peer: 1, Ep: 2},
+	}
+	out = append(out, sc4)
+	// buffer history: long unroutable packets full of non-zero bytes are dropped by the reader, which
+	// keeps their buffers for the next read; the short routable packets that follow must be padded with zeros
+	for _, tb := range []int{1, 4} {
+		sc5 := &Scenario{Kind: "scenario", Gen: fmt.Sprintf("directed-stale-buffer-%d", tb), NPeers: 1, Table: tbl[:1], MTU: 1420, TunBatch: tb, Eps: []int{1}}
+		sc5.Evs = []Ev{{Kind: "refhs", Peer: 0, Ep: 1}}
+		tag = 1
+		for round := 0; round < 3; round++ {
+			for _, n := range []int{37, 20, 21, 47, 100, 1409, 1419, 33} {
+				junk := Ev{Kind: "tun"}
+				good := Ev{Kind: "tun"}
+				for j := 0; j < tb; j++ {
+					x := make([]byte, 1420)
+					for i := range x {
+						x[i] = 0xaa
+					}
+					x[0] = 0x45
+					copy(x[16:], []byte{172, 16, 0, byte(j)}) // no route
+					junk.Pkts = append(junk.Pkts, x)
+					good.Pkts = append(good.Pkts, v4to([4]byte{10, 1, 0, byte(j)}, n+j, tag))
+					tag++
+				}
+				sc5.Evs = append(sc5.Evs, junk, good)
+			}
+		}
+		out = append(out, sc5)
+	}
 	return out
 }
 
@@ -561,8 +663,15 @@ func gallina(sc *Scenario) string {
 	if sc.Kind == "pad" {
 		return fmt.Sprintf("PadSweep %d %s %s", sc.MTU, ints(sc.Lens), ints(sc.Pads))
 	}
+	if sc.Kind == "crashed" {
+		return "Crashed"
+	}
 	var b strings.Builder
-	fmt.Fprintf(&b, "Scenario [%d;%d;%d] %s %s [", sc.MTU, ipv4.HeaderLen, ipv6.HeaderLen, dpath.TableGallina(sc.Table), ints(sc.Eps))
+	partial := 0
+	if sc.Partial {
+		partial = 1
+	}
+	fmt.Fprintf(&b, "Scenario [%d;%d;%d;%d] %s %s [", sc.MTU, ipv4.HeaderLen, ipv6.HeaderLen, partial, dpath.TableGallina(sc.Table), ints(sc.Eps))
 	for i, ev := range sc.Evs {
 		if i > 0 {
 			b.WriteString(";\n ")
@@ -589,6 +698,10 @@ func gallina(sc *Scenario) string {
 			fmt.Fprintf(&b, "RShift %d", ev.Peer)
 		case "expire":
 			fmt.Fprintf(&b, "RExp %d", ev.Peer)
+		case "down":
+			b.WriteString("RDown")
+		case "up":
+			b.WriteString("RUp")
 		}
 	}
 	b.WriteString("]\n [")
@@ -611,42 +724,30 @@ func gallina(sc *Scenario) string {
 
 const imports = "From WG Require Import Base.Prelude Outbound.Check."
 
-func main() {
-	seed := flag.Int64("seed", 1, "PRNG seed")
-	n := flag.Int("n", 160, "number of random scenarios")
-	shards := flag.Int("shards", 16, "case files")
-	out := flag.String("out", "out/C01", "output directory")
-	replayIn := flag.String("replay", "", "JSON file with scenarios (inputs) to re-run")
-	corpus := flag.String("corpus", "", "directory of corpus JSON scenarios to run first")
-	big := flag.Bool("big", false, "thorough tier: largest packets too")
-	flag.Parse()
-	if err := os.MkdirAll(*out, 0o755); err != nil {
-		panic(err)
-	}
-	var kept []*Scenario
-	discarded := 0
-	runFixed := func(sc *Scenario) {
-		if sc.Kind == "pad" {
-			runPad(sc)
-			kept = append(kept, sc)
-			return
-		}
-		evs := sc.Evs
-		run(sc, fixed(evs))
-		if sc.Discarded != "" && *replayIn == "" {
-			run(sc, fixed(evs))
-		}
-		if sc.Discarded != "" {
-			discarded++
-			fmt.Fprintln(os.Stderr, "discarded:", sc.Gen, sc.Discarded)
-			if *replayIn == "" {
-				return
+// A job produces one case.  The list is a pure function of the flags, so parent and children agree on it.
+type job struct {
+	name string
+	run  func() *Scenario
+}
+
+func buildJobs(seed int64, n int, big bool, corpus, replayIn string) []job {
+	var jobs []job
+	fixedJob := func(sc *Scenario) job {
+		return job{sc.Gen, func() *Scenario {
+			if sc.Kind == "pad" {
+				runPad(sc)
+				return sc
 			}
-		}
-		kept = append(kept, sc)
+			evs := sc.Evs
+			run(sc, fixed(evs))
+			if sc.Discarded != "" && !poisoned && replayIn == "" {
+				run(sc, fixed(evs))
+			}
+			return sc
+		}}
 	}
-	if *replayIn != "" {
-		data, err := os.ReadFile(*replayIn)
+	if replayIn != "" {
+		data, err := os.ReadFile(replayIn)
 		if err != nil {
 			panic(err)
 		}
@@ -655,43 +756,102 @@ func main() {
 			panic(err)
 		}
 		for _, sc := range scs {
-			runFixed(sc)
+			jobs = append(jobs, fixedJob(sc))
 		}
-		*shards = 1
-	} else {
-		if *corpus != "" {
-			files, _ := filepath.Glob(filepath.Join(*corpus, "*.json"))
-			for _, f := range files {
-				data, err := os.ReadFile(f)
-				if err != nil {
-					continue
-				}
-				var cs []*Scenario
-				if json.Unmarshal(data, &cs) == nil {
-					for _, c := range cs {
-						c.Gen = "corpus/" + filepath.Base(f)
-						runFixed(c)
-					}
-				}
-			}
-		}
-		for _, sc := range padSweeps() {
-			runFixed(sc)
-		}
-		for _, sc := range directed() {
-			runFixed(sc)
-		}
-		r := rand.New(rand.NewSource(*seed))
-		for i := 0; i < *n; i++ {
-			sc, g := genScenario(r, *big)
-			run(sc, g.next)
-			if sc.Discarded != "" {
-				discarded++
-				fmt.Fprintln(os.Stderr, "discarded:", sc.Gen, sc.Discarded)
+		return jobs
+	}
+	if corpus != "" {
+		files, _ := filepath.Glob(filepath.Join(corpus, "*.json"))
+		for _, f := range files {
+			data, err := os.ReadFile(f)
+			if err != nil {
 				continue
 			}
-			kept = append(kept, sc)
+			var cs []*Scenario
+			if json.Unmarshal(data, &cs) == nil {
+				for _, c := range cs {
+					c.Gen = "corpus/" + filepath.Base(f)
+					jobs = append(jobs, fixedJob(c))
+				}
+			}
 		}
+	}
+	for _, sc := range padSweeps() {
+		jobs = append(jobs, fixedJob(sc))
+	}
+	for _, sc := range directed() {
+		jobs = append(jobs, fixedJob(sc))
+	}
+	master := rand.New(rand.NewSource(seed)) // ONE PRNG: it deals a seed to every random scenario
+	for i := 0; i < n; i++ {
+		s := master.Int63()
+		jobs = append(jobs, job{"random", func() *Scenario {
+			sc, g := genScenario(rand.New(rand.NewSource(s)), big)
+			run(sc, g.next)
+			return sc
+		}})
+	}
+	return jobs
+}
+
+func main() {
+	seed := flag.Int64("seed", 1, "PRNG seed")
+	n := flag.Int("n", 160, "number of random scenarios")
+	shards := flag.Int("shards", 16, "case files")
+	out := flag.String("out", "out/C01", "output directory")
+	replayIn := flag.String("replay", "", "JSON file with scenarios (inputs) to re-run")
+	corpus := flag.String("corpus", "", "directory of corpus JSON scenarios to run first")
+	big := flag.Bool("big", false, "thorough tier: largest packets too")
+	child := flag.String("child", "", "internal: run jobs lo:hi")
+	childOut := flag.String("childout", "", "internal: result file of a child")
+	flag.Parse()
+	if err := os.MkdirAll(*out, 0o755); err != nil {
+		panic(err)
+	}
+	jobs := buildJobs(*seed, *n, *big, *corpus, *replayIn)
+	if *child != "" {
+		lo, hi := dpath.ChildRange(*child)
+		var results []json.RawMessage
+		for i := lo; i < hi && i < len(jobs); i++ {
+			sc := jobs[i].run()
+			data, _ := json.Marshal(sc)
+			results = append(results, data)
+			dpath.ChildWrite(*childOut, results)
+			if poisoned {
+				os.Exit(dpath.ExitPoisoned)
+			}
+		}
+		return
+	}
+	var args []string
+	for _, a := range os.Args[1:] {
+		args = append(args, a)
+	}
+	raw, crash := dpath.RunChildren(len(jobs), 12, 6, nil, args, *out, 20*time.Second)
+	var kept []*Scenario
+	discarded, crashed := 0, 0
+	for i := range jobs {
+		if raw[i] == nil {
+			crashed++
+			fmt.Fprintln(os.Stderr, "crashed:", jobs[i].name, crash[i])
+			kept = append(kept, &Scenario{Kind: "crashed", Gen: jobs[i].name, Crash: crash[i]})
+			continue
+		}
+		sc := &Scenario{}
+		if err := json.Unmarshal(raw[i], sc); err != nil {
+			panic(err)
+		}
+		if sc.Discarded != "" {
+			discarded++
+			fmt.Fprintln(os.Stderr, "discarded:", sc.Gen, sc.Discarded)
+			if *replayIn == "" {
+				continue
+			}
+		}
+		kept = append(kept, sc)
+	}
+	if *replayIn != "" {
+		*shards = 1
 	}
 	if *shards > len(kept) {
 		*shards = len(kept)
@@ -722,7 +882,7 @@ func main() {
 		infos = append(infos, shardInfo{name, idx, end - idx})
 		idx = end
 	}
-	meta := map[string]any{"seed": *seed, "cases": kept, "shards": infos, "discarded": discarded}
+	meta := map[string]any{"seed": *seed, "cases": kept, "shards": infos, "discarded": discarded, "crashed": crashed}
 	data, _ := json.Marshal(meta)
 	if err := os.WriteFile(filepath.Join(*out, "cases.json"), data, 0o644); err != nil {
 		panic(err)
